@@ -263,7 +263,8 @@ pub fn check(prop: &str, tier: u8, seed: u64) -> i32 {
     };
     let mut recs: Vec<Rec> = Vec::new();
     for (fam, total) in &d.parts {
-        let mut r = run_family(fam, prop, tier, seed, *total, WD, died);
+        // quick-tier jobs take seconds (the slowest families tens of seconds under load)
+        let mut r = run_family(fam, prop, tier, seed, *total, if tier == 0 { WD / 3 } else { WD }, died);
         let base = recs.len();
         for x in r.iter_mut() {
             x.idx += base;
